@@ -1,5 +1,5 @@
-#ifndef TBFSMSPECXALGORITHM_HPP
-#define TBFSMSPECXALGORITHM_HPP
+#ifndef TBFSMSTARPUALGORITHM_HPP
+#define TBFSMSTARPUALGORITHM_HPP
 
 #include "tbfglobal.hpp"
 
